@@ -645,7 +645,7 @@ impl<'ast, 'r, 'a> Visit<'ast> for Collector<'r, 'a> {
                 self.rw.log.push(format!("R30 let {name} = {m}.entry({k}).or_default() -> __entry_or_default; {name}.insert(..) -> __entry_insert"));
                 self.edits.push(Edit { range: rng(s), text: format!("__entry_or_default(&mut {m}, {k});"), prio: 0 });
             }
-            syn::Stmt::Local(l) if self.rw.on("R3") || self.rw.on("R16") || self.rw.on("R3f") || self.rw.on("R17") || self.rw.on("R26") || self.rw.on("R33") => {
+            syn::Stmt::Local(l) if self.rw.on("R3") || self.rw.on("R16") || self.rw.on("R3f") || self.rw.on("R17") || self.rw.on("R26") || self.rw.on("R33") || self.rw.on("R3m") => {
                 if self.rw.on("R16") {
                     if let Some(t) = self.try_r16(l) {
                         self.edits.push(Edit { range: rng(s), text: t, prio: 0 });
@@ -660,6 +660,12 @@ impl<'ast, 'r, 'a> Visit<'ast> for Collector<'r, 'a> {
                 }
                 if self.rw.on("R26") {
                     if let Some(t) = self.try_r26(l) {
+                        self.edits.push(Edit { range: rng(s), text: t, prio: 0 });
+                        return;
+                    }
+                }
+                if self.rw.on("R3m") {
+                    if let Some(t) = self.try_r3m(l) {
                         self.edits.push(Edit { range: rng(s), text: t, prio: 0 });
                         return;
                     }
@@ -792,6 +798,41 @@ impl<'ast, 'r, 'a> Visit<'ast> for Collector<'r, 'a> {
                 let body = self.render(&cl.body);
                 self.rw.log.push(format!("R32 get_or_init closure annotated as {key}"));
                 self.edits.push(Edit { range: rng(e), text: format!("{recv}.get_or_init({sig}{hdr} {{ {body} }})"), prio: 0 });
+            }
+            // R38: ITER.next().is_some()  ->  ITER.len() > 0   (ITER is a stand-in returning the vector of what the adapter chain yields)
+            syn::Expr::MethodCall(m) if m.method == "is_some" && self.rw.on("R38") && m.args.is_empty() && is_method(&m.receiver, "next").map_or(false, |n| n.args.is_empty()) => {
+                let nx = is_method(&m.receiver, "next").unwrap();
+                let recv = self.render(&nx.receiver);
+                self.rw.log.push("R38 ITER.next().is_some() -> ITER.len() > 0".to_string());
+                self.edits.push(Edit { range: rng(e), text: format!("{recv}.len() > 0"), prio: 0 });
+            }
+            // R39: ITER.for_each(|PAT| BODY)  ->  for PAT in ITER BODY   (statement position; BODY is a block)
+            syn::Expr::MethodCall(m) if m.method == "for_each" && self.rw.on("R39") && m.args.len() == 1 && matches!(&m.args[0], syn::Expr::Closure(c) if c.inputs.len() == 1 && matches!(&*c.body, syn::Expr::Block(_))) => {
+                let cl = match &m.args[0] {
+                    syn::Expr::Closure(c) => c,
+                    _ => unreachable!(),
+                };
+                if closure_has_control_flow(&cl.body) {
+                    die("unsupported", &format!("{}: R39 side condition: control flow in the for_each body", self.rw.fn_path));
+                }
+                let key = self.rw.next_key("R39");
+                let (iter, hdr, bs, be) = self.rw.loop_parts(&key);
+                let pat = self.rw.text(&cl.inputs[0]).to_string();
+                let recv = self.render(&m.receiver);
+                let body = match &*cl.body {
+                    syn::Expr::Block(b) => {
+                        let mut c = Collector { rw: self.rw, edits: vec![] };
+                        for st in &b.block.stmts {
+                            c.visit_stmt(st);
+                        }
+                        let edits = std::mem::take(&mut c.edits);
+                        let r = b.block.brace_token.span.open().byte_range().end..b.block.brace_token.span.close().byte_range().start;
+                        apply_edits(self.rw.src, r, edits)
+                    }
+                    _ => unreachable!(),
+                };
+                self.rw.log.push(format!("R39 ITER.for_each(|{pat}| ..) -> for loop {key}"));
+                self.edits.push(Edit { range: rng(e), text: format!("for {pat} in {iter}{recv} {hdr}{{ {bs}{body}{be} }}"), prio: 0 });
             }
             // R14: expression-level `ITER.map(|p| B).collect()` into a boxed slice (error payloads)
             //   -> __collect_boxed({ let mut __v = Vec::new(); for p in ITER { __v.push(B); } __v })
@@ -1228,6 +1269,38 @@ impl<'r, 'a> Collector<'r, 'a> {
         let vec_ty = ty.unwrap_or_else(|| "UstrMap<_>".to_string());
         self.rw.log.push(format!("R26 let {name} = M.iter()[.filter(..)].map(..).collect() into a UstrMap -> loop {key}"));
         Some(format!("let mut {name}: {vec_ty} = UstrMap::default(); for __e in {iter}__map_entries(&{m}) {hdr}{{ {bs}{guard}{{ let {pat} = __e; {name}.insert({k}, {v}); }} {be}}}"))
+    }
+
+    /// R3m: `let x: Vec<T> = M.iter().filter_map(|PAT| B).collect();` (M an index map)
+    ///  -> `let mut x: Vec<T> = Vec::new(); let __es_x = __imap_entries(&M); let ghost __es_x_g = __es_x@; for PAT in __es_x { if let Some(__v) = B { x.push(__v); } }`
+    /// (entries in the map's own order; B is evaluated once per entry, as by the adapter)
+    fn try_r3m(&mut self, l: &syn::Local) -> Option<String> {
+        let init = l.init.as_ref()?;
+        if init.diverge.is_some() {
+            return None;
+        }
+        let (name, ty) = self.local_name_ty(l)?;
+        let coll = is_method(&init.expr, "collect")?;
+        let fm = is_method(&coll.receiver, "filter_map")?;
+        let it = is_method(&fm.receiver, "iter")?;
+        let cl = match fm.args.get(0) {
+            Some(syn::Expr::Closure(c)) => c,
+            _ => return None,
+        };
+        if cl.capture.is_some() || cl.inputs.len() != 1 || closure_has_control_flow(&cl.body) {
+            die("unsupported", &format!("{}: R3m side condition violated (move closure / several params / control flow in body)", self.rw.fn_path));
+        }
+        let vec_ty = ty.unwrap_or_else(|| "Vec<_>".to_string());
+        if !vec_ty.replace(' ', "").starts_with("Vec<") {
+            die("unsupported", &format!("{}: R3m side condition: declared type `{vec_ty}` is not Vec<_>", self.rw.fn_path));
+        }
+        let key = self.rw.next_key("R3m");
+        let (iter, hdr, bs, be) = self.rw.loop_parts(&key);
+        let pat = self.rw.text(&cl.inputs[0]).to_string();
+        let map = self.render(&it.receiver);
+        let body = self.render(&cl.body);
+        self.rw.log.push(format!("R3m let {name} = M.iter().filter_map(..).collect() -> loop {key} over __imap_entries"));
+        Some(format!("let mut {name}: {vec_ty} = Vec::new(); let __es_{name} = __imap_entries(&{map}); let ghost __es_{name}_g = __es_{name}@; for {pat} in {iter}__es_{name} {hdr}{{ {bs}if let Some(__v) = {body} {{ {name}.push(__v); }} {be}}}"))
     }
 
     /// R33: `let x: Vec<Ustr> = M.keys().filter(|p| B).copied().collect();`
